@@ -32,7 +32,7 @@ def seed_table():
     return "\n".join(fixed)
 
 def seed_table_safe():
-    rows = ["| seed | change | needs | caught by (quick tier) |", "|---|---|---|---|"]
+    rows = ["| seed | change | needs | caught by (quick tier, final re-run) |", "|---|---|---|---|"]
     import importlib.util
     spec = importlib.util.spec_from_file_location("seed_table", "/verif/tools/seed_table.py")
     # seed_table.py prints on import; capture INFO by exec without printing
@@ -46,6 +46,11 @@ def seed_table_safe():
         if not os.path.exists(mp): continue
         m = json.load(open(mp))
         ch, need = INFO.get(sid, (m.get("change", ""), m.get("needs_to_manifest", "")))
+        if sid.startswith("SAFE"):
+            alarms = m.get("alarms", [])
+            caught = "no alarm (all 20 quick checks)" if not alarms else "**ALARM**: " + esc("; ".join(alarms)[:200])
+            rows.append(f"| {sid} | {esc(ch)} | (behaviour-preserving) | {caught} |")
+            continue
         caught = ", ".join(m.get("caught_by", [])) or "**none**"
         rows.append(f"| {sid} | {esc(ch)} | {esc(need)} | {caught} |")
     return "\n".join(rows)
